@@ -9,6 +9,9 @@
 From Coq Require Import List NArith ZArith String.
 From Coq.Strings Require Import Byte.
 From SP Require Import Bytes Params Crypto Errors Nonce Packets Rand Verify Encrypt Decrypt Signcrypt Sign KeyTrace KeyTraceProofs.
+From SP Require Import Nonce Packets Signcrypt GoLang GoAst GoAstProofs GoAstProofs2.
+From Coq Require String.
+Import String.StringSyntax.
 Import ListNotations.
 
 Theorem C12_receiver_encryption (c : crypto) (vd : validator) (kr : keyring) (input : bytes) :
@@ -62,6 +65,38 @@ Theorem C12_fixed_nonces :
   nonce_derived_shared_key = bytes_of_string "saltpack_derived_sboxkey"%string.
 Proof. repeat split. Qed.
 
+(* SOURCE TIE: the terms f_saltpack_* are generated on every run from the Go syntax trees of
+   /repo (harness/cmd/gen/goast.go); under the Go semantics of model/GoLang.v, with the standard
+   library / NaCl primitives interpreted by ext_prims over the crypto record and calls to other
+   saltpack functions interpreted by the model (each of those has its own such theorem), they
+   compute exactly what the model says, for ALL arguments and EVERY instance of the primitives. *)
+(* the nonces under which a long-term box key is ever asked to open or box: fixed strings plus an index *)
+Theorem C12_source_nonceForPayloadKeyBox (c : crypto) (v : version) (i : N) :
+  run_func (ext_model c) f_saltpack_nonceForPayloadKeyBox [g_version v; VInt (Z.of_N i)]
+  = ret_bytes (nonce_payload_key_box v i).
+Proof. exact (go_nonceForPayloadKeyBox c v i). Qed.
+
+Theorem C12_source_nonceForPayloadKeyBoxV2 (c : crypto) (i : N) :
+  (i < 18446744073709551616)%N ->
+  run_func (ext_prims c) f_saltpack_nonceForPayloadKeyBoxV2 [VInt (Z.of_N i)] = ORet [VBytes (nonce_payload_key_box_v2 i)].
+Proof. exact (go_nonceForPayloadKeyBoxV2 c i). Qed.
+
+Theorem C12_source_nonce_constants (c : crypto) :
+  run_func (ext_prims c) f_saltpack_nonceForSenderKeySecretBox [] = ORet [VBytes nonce_sender_key_sbox] /\
+  run_func (ext_prims c) f_saltpack_nonceForDerivedSharedKey [] = ORet [VBytes nonce_derived_shared_key].
+Proof. exact (go_nonce_constants c). Qed.
+
+(* what a long-term box key boxes for key derivation: 32 zero bytes under the MAC-key nonce *)
+Theorem C12_source_computeMACKeySingle (c : crypto) (sk pk nonce : bytes) :
+  (48 <= List.length (box_seal c sk pk nonce (zeros 32)))%nat ->
+  run_func (ext_prims c) f_saltpack_computeMACKeySingle [VBytes sk; VBytes pk; VBytes nonce]
+  = ORet [VBytes (mac_key_single c sk pk nonce)].
+Proof. exact (go_computeMACKeySingle c sk pk nonce). Qed.
+
+Print Assumptions C12_source_nonceForPayloadKeyBox.
+Print Assumptions C12_source_nonceForPayloadKeyBoxV2.
+Print Assumptions C12_source_nonce_constants.
+Print Assumptions C12_source_computeMACKeySingle.
 Print Assumptions C12_receiver_encryption.
 Print Assumptions C12_receiver_signcryption.
 Print Assumptions C12_sender_box.
